@@ -61,8 +61,9 @@ class Terms:
 
     def local(self, l, depth=None):
         depth = self.max_depth if depth is None else depth
-        if l in self.cache:
-            return self.cache[l]
+        hit = self.cache.get(l)
+        if hit is not None and (hit[1] >= depth or hit[1] < 0):
+            return hit[0]
         if 1 <= l <= self.argc:
             if self.body["dk"] == "Closure" and l >= 2 and self.closure_arg is not None:
                 return ("carg", l - 2, self.closure_arg)
@@ -72,7 +73,7 @@ class Terms:
         defs = self.du.defs.get(l, [])
         if not defs:
             return ("undef", l)
-        self.cache[l] = ("rec", l)  # cycle guard (loops)
+        self.cache[l] = (("rec", l), -1)  # cycle guard (loops)
         alts = []
         for (_bb, kind, pay) in defs:
             if kind == "assign":
@@ -87,7 +88,8 @@ class Terms:
             if a not in uniq:
                 uniq.append(a)
         t = uniq[0] if len(uniq) == 1 else ("phi", tuple(uniq))
-        self.cache[l] = t
+        # a term computed with less remaining depth may be truncated: remember how deep it was computed
+        self.cache[l] = (t, depth)
         return t
 
     def call(self, t, depth):
